@@ -297,7 +297,7 @@ Proof.
   destruct (_ && _); [reflexivity|]. destruct (negb (status_eqb _ _)); [reflexivity|].
   match goal with |- RC (let '(c, pre) := ?x in _) => destruct x as [c1 pre] eqn:E1 end.
   assert (Hpre : benign pre = true /\ c_store c1 = c_store c).
-  { revert E1. clear.
+  { revert E1. clear. unfold connack_send_props.
     repeat match goal with
            | |- context [if ?b then _ else _] => destruct b eqn:?
            | |- context [match ?o with Some _ => _ | None => _ end] => destruct o eqn:?
@@ -432,24 +432,32 @@ Proof. unfold recv_disconnect. repeat step_RC. Qed.
 Lemma recv_ack_RC g c v t pr : RC (recv_ack g c v t pr).
 Proof. unfold recv_ack, store_erase. repeat step_RC. Qed.
 
+Lemma resolve_recv_alias_co g c p :
+  match resolve_recv_alias g c p with
+  | Ok (_, _, stop, e0) => (stop = true /\ close_ordered e0 = true) \/ (stop = false /\ e0 = [])
+  | Panic _ => True
+  end.
+Proof.
+  unfold resolve_recv_alias.
+  repeat match goal with
+         | |- context [if ?b then _ else _] => destruct b eqn:?
+         | |- context [match k_alias ?p with _ => _ end] => destruct (k_alias p) eqn:?
+         | |- context [match c_ta_recv ?c with _ => _ end] => destruct (c_ta_recv c) eqn:?
+         | |- context [tar_get ?r ?a] => destruct (tar_get r a) eqn:?
+         | |- context [tar_insert ?r ?t ?a] => destruct (tar_insert r t a) eqn:?
+         | |- context [handle_v5_error ?c ?e] =>
+             let H := fresh in pose proof (handle_v5_error_RC c e) as H; destruct (handle_v5_error c e) as [[? ?]|]; cbn [RC] in H
+         | |- _ => progress cbn [bindr]
+         end; auto.
+Qed.
+
 Lemma recv_publish_v5_RC g c pr : RC (recv_publish_v5 g c pr).
 Proof.
   unfold recv_publish_v5. destruct pr as [p|e]; [|repeat step_RC].
   match goal with |- RC (if ?b then _ else _) => destruct b end; [apply handle_v5_error_RC|].
-  match goal with |- RC (bindr ?part _) => destruct part as [[[[c1 q] stop] e0]|] eqn:E; [|exact I] end.
+  pose proof (resolve_recv_alias_co g (note_inbound c p) p) as H0.
+  destruct (resolve_recv_alias g (note_inbound c p) p) as [[[[c1 q] stop] e0]|]; [|exact I].
   cbn [bindr].
-  assert (H0 : stop = true /\ close_ordered e0 = true \/ stop = false /\ e0 = []).
-  { revert E.
-    repeat match goal with
-           | |- context [if ?b then _ else _] => destruct b eqn:?
-           | |- context [match k_alias ?p with _ => _ end] => destruct (k_alias p) eqn:?
-           | |- context [match c_ta_recv ?c with _ => _ end] => destruct (c_ta_recv c) eqn:?
-           | |- context [tar_get ?r ?a] => destruct (tar_get r a) eqn:?
-           | |- context [tar_insert ?r ?t ?a] => destruct (tar_insert r t a) eqn:?
-           | |- context [handle_v5_error ?c ?e] =>
-               let H := fresh in pose proof (handle_v5_error_RC c e) as H; destruct (handle_v5_error c e) as [[? ?]|]; cbn [RC] in H
-           | |- _ => progress cbn [bindr]
-           end; intro E; try discriminate; inversion E; subst; clear E; auto. }
   destruct H0 as [[-> H0]|[-> ->]]; [exact H0|].
   repeat step_RC.
 Qed.
@@ -465,8 +473,8 @@ Lemma recv_connect_RC g c v pr : RC (recv_connect g c v pr).
 Proof.
   unfold recv_connect. destruct (negb _); [apply handle_error_RC|].
   destruct pr as [p|e].
-  - repeat step_RC.
-  - apply RC_then_error. apply send_connack_RC; destruct (version_eqb v V50); reflexivity.
+  - destruct (connect_recv_state _ _ _); cbn [bindr]; [|exact I]. repeat step_RC.
+  - apply RC_then_error. apply send_connack_RC. unfold connect_refusal. destruct (version_eqb v V50); reflexivity.
 Qed.
 
 Lemma connack_recv_limits_store c p c' : connack_recv_limits c p = Ok c' -> c_store c' = c_store c.
